@@ -51,7 +51,7 @@ PAIR_RULE = ("valid shapes only (simple rings checked exactly, holes strictly in
   "grids 2^-s; non-trivial: all; distinct = distinct case lines")
 
 PROPS["C02"] = dict(
-    translated_functions=['Rect.ContainsPoint', 'Rect.IntersectsPoint', 'Rect.IntersectsRect', 'Rect.Area', 'Segment.Rect', 'Segment.IntersectsSegment', 'Point.ContainsPoint', 'Point.IntersectsPoint', 'Point.IntersectsRect'],
+    translated_functions=['Rect.ContainsPoint', 'Rect.IntersectsPoint', 'Rect.IntersectsRect', 'Rect.Area', 'Segment.Rect', 'Segment.IntersectsSegment', 'Point.ContainsPoint', 'Point.IntersectsPoint', 'Point.IntersectsRect', 'Rect.IntersectsLine', 'Rect.IntersectsPoly', 'Point.IntersectsLine', 'Point.IntersectsPoly', 'Line.IntersectsPoint', 'Line.IntersectsRect', 'Line.IntersectsPoly', 'Poly.IntersectsPoint', 'Poly.IntersectsRect'],
     streams=["C02"], kernel_cases=200, timeout=1500,
     rule=PAIR_RULE + "; implementation answers A.Intersects(B), B.Intersects(A) compared with the Coq model and with the arrangement oracle meets_x",
     trusted_base=COMMON_TB + ["the executable arrangement oracle coq/PairSpec.v (meets_x) as ground truth for polygon pairs: its completeness is not proved (polygonal Jordan curve theorem, DESIGN §9)"],
@@ -59,7 +59,7 @@ PROPS["C02"] = dict(
     partial=["ring x segment, ring x line string and ring x ring (polygons without holes) are proved exact as point sets and symmetric (Jordan.v, JordanQ.v, JordanRing.v); rect x line and rect x polygon-without-holes likewise (JordanRect.v); exactness of pairs involving holes is explored against the oracle, not proved"],
 )
 PROPS["C03"] = dict(
-    translated_functions=['Rect.ContainsPoint', 'Rect.ContainsRect', 'Rect.IntersectsRect', 'Segment.Rect', 'Segment.IntersectsSegment', 'Segment.ContainsSegment', 'Segment.CollinearPoint', 'Point.ContainsPoint', 'Point.ContainsRect'],
+    translated_functions=['Rect.ContainsPoint', 'Rect.ContainsRect', 'Rect.IntersectsRect', 'Segment.Rect', 'Segment.IntersectsSegment', 'Segment.ContainsSegment', 'Segment.CollinearPoint', 'Point.ContainsPoint', 'Point.ContainsRect', 'Rect.ContainsLine', 'Rect.ContainsPoly', 'Point.ContainsLine', 'Point.ContainsPoly', 'Poly.ContainsRect'],
     streams=["C03"], kernel_cases=200, timeout=1500, classify=classes.classify_c03,
     rule=PAIR_RULE + "; implementation answers A.Contains(B), B.Contains(A) compared with the Coq model and with the arrangement oracle covers_x",
     trusted_base=COMMON_TB + ["the executable arrangement oracle coq/PairSpec.v (covers_x) as ground truth: its completeness is not proved (DESIGN §9)"],
@@ -67,7 +67,7 @@ PROPS["C03"] = dict(
     partial=["strict containment of a segment by a non-convex ring is proved exact as a point-set statement (JordanQ.v); containment with boundary contact for concave rings / holes is explored against the oracle, not proved; the pinned tree violates it in contact configurations (KNOWN_FINDINGS.txt)"],
 )
 PROPS["C12"] = dict(
-    translated_functions=['Segment.Rect', 'Segment.CollinearPoint', 'Segment.ContainsPoint', 'Segment.ContainsSegment', 'Segment.IntersectsSegment', 'Rect.ContainsPoint', 'Rect.IntersectsPoint', 'Rect.ContainsRect', 'Rect.IntersectsRect', 'Rect.Area', 'Point.ContainsPoint', 'Point.IntersectsPoint', 'Point.IntersectsRect', 'Point.ContainsRect'],
+    translated_functions=['Segment.Rect', 'Segment.CollinearPoint', 'Segment.ContainsPoint', 'Segment.ContainsSegment', 'Segment.IntersectsSegment', 'Rect.ContainsPoint', 'Rect.IntersectsPoint', 'Rect.ContainsRect', 'Rect.IntersectsRect', 'Rect.Area', 'Point.ContainsPoint', 'Point.IntersectsPoint', 'Point.IntersectsRect', 'Point.ContainsRect', 'Rect.IntersectsLine', 'Rect.IntersectsPoly', 'Point.IntersectsLine', 'Point.IntersectsPoly', 'Line.IntersectsPoint', 'Line.IntersectsRect', 'Line.IntersectsPoly', 'Poly.IntersectsPoint', 'Poly.IntersectsRect', 'Rect.ContainsLine', 'Rect.ContainsPoly', 'Point.ContainsLine', 'Point.ContainsPoly', 'Poly.ContainsRect'],
     streams=["C12"], kernel_cases=200, timeout=1500, classify=classes.classify_c12,
     rule=PAIR_RULE + "; every pair re-run under translation, Move, scaling by 2^k, x->-x, y->-y, transpose, start-vertex rotation (first, random, last), reversal, closing vertex toggled; the four answers must equal those of the untransformed pair",
     trusted_base=COMMON_TB,
@@ -88,7 +88,7 @@ PROPS["C04"] = dict(
 OBJ_TB = COMMON_TB + ["object trees are built through the public constructors (NewPoint ... NewFeatureCollection) from an integer encoding; the child-index threshold is set through the verif hook VerifSetChildIndex (re-runs parseInitRectIndex)",
                       "github.com/tidwall/rtree (child index) is outside the model: the model's Search is the linear scan, the correspondence runs thresholds 0/1/2/64"]
 PROPS["C09"] = dict(
-    translated_functions=['unionRects', 'Rect.ContainsPoint', 'Rect.IntersectsPoint', 'Rect.ContainsRect', 'Rect.IntersectsRect', 'Rect.Area', 'Point.ContainsPoint', 'Point.IntersectsPoint', 'Point.IntersectsRect', 'Point.ContainsRect'],
+    translated_functions=['unionRects', 'Rect.ContainsPoint', 'Rect.IntersectsPoint', 'Rect.ContainsRect', 'Rect.IntersectsRect', 'Rect.Area', 'Point.ContainsPoint', 'Point.IntersectsPoint', 'Point.IntersectsRect', 'Point.ContainsRect', 'Rect.IntersectsLine', 'Rect.IntersectsPoly', 'Point.IntersectsLine', 'Point.IntersectsPoly', 'Line.IntersectsPoint', 'Line.IntersectsRect', 'Line.IntersectsPoly', 'Poly.IntersectsPoint', 'Poly.IntersectsRect', 'Rect.ContainsLine', 'Rect.ContainsPoly', 'Point.ContainsLine', 'Point.ContainsPoly', 'Poly.ContainsRect'],
     streams=["C09"], kernel_cases=150, timeout=1500, classify=classes.classify_c09,
     rule="random object trees (depth <= 2; 11 kinds: Point, SimplePoint, Rect, LineString, Polygon, Feature, 5 collection kinds, with 0-4 or 60-70 children, empty children) whose leaves are constructed in contact with a common valid polygon; all ordered pairs; 4 geometry-index x 4 child-index configurations; per pair: 6 predicate answers + 8 algebraic-law flags (within=contains swapped, intersects symmetric, contains=>intersects, contains=>rect covers, intersects=>rects meet, self containment, Feature transparency, SimplePoint/Rect representation transparency) compared with the Coq model; answers compared with the composed point-set oracle when no polygon leaf is in boundary contact (where the C03 findings live). non-trivial: all; distinct = distinct case lines",
     trusted_base=OBJ_TB + ["executable oracle PairSpec.meets_x / covers_x at the leaves (completeness not proved)"],
